@@ -283,6 +283,12 @@ class IncrementalExecutor(Executor[DeliveryGroupMap]):
             # parents have been filtered out, since nobody will consume them
             for queue in self._stream_item_queues:
                 self.settle_abort_result(queue.abort())
+            # the same applies to early executed nested execution groups
+            pending_futures = list(self.pending_incremental_futures)
+            if pending_futures:
+                for future in pending_futures:
+                    future.cancel()
+                self.settle_in_background(pending_futures)
             return super().build_response(data)
 
         errors = self.collected_errors.errors
